@@ -299,7 +299,12 @@ fn cmd_gen_cases(m: &HashMap<String, String>) {
             let p = [0.3, 0.5, 0.8][rng.gen_range(0..3)];
             // the last form scales every weight by 2^-40 (exact): whole path lengths stay below 1e-9, which an
             // absolute tolerance in a distance comparison would merge
-            let (weights, d): (Vec<i64>, i64) = match i % 4 { 0 => (vec![1, 3], 2), 1 => (vec![1, 2, 3, 5], 2), 2 => (vec![1, 3, 4, 7], 4), _ => (vec![1, 2, 3, 5], 1 << 40) };
+            let (weights, d): (Vec<i64>, i64) = if cubes {
+                // perfect cubes over a power of two: every real weight is below 1, the ratios to the largest weight are unchanged
+                match i % 3 { 0 => (vec![1, 8, 27], 32), 1 => (vec![1, 1, 8], 64), _ => (vec![1, 8, 27], 1 << 40) }
+            } else {
+                match i % 4 { 0 => (vec![1, 3], 2), 1 => (vec![1, 2, 3, 5], 2), 2 => (vec![1, 3, 4, 7], 4), _ => (vec![1, 2, 3, 5], 1 << 40) }
+            };
             let mut case = cases::case_json(specs, &cases::random_graph(&mut rng, specs, nn, p, &weights), "halves");
             case["wdiv"] = serde_json::json!(d);
             writeln!(out, "{}", case).unwrap();
